@@ -417,7 +417,7 @@ def build_scripts(shapes, ushapes, dims, tier, seed, T):
     for assoc, ncl in (("own", 1), ("shared", 2)) if tier == "quick" else (("own", 1), ("own", 2), ("shared", 2), ("shared", 3)):
         sid += 1
         cls = [dict(dgrams=[dict(n=small[(k + 0) % len(small)], to=1, nowait=True), dict(n=small[(k + 1) % len(small)], to=2),
-                            dict(n=small[(k + 2) % len(small)], to=1)]) for k in range(ncl)]
+                            dict(n=small[(k + 2) % len(small)], to=2)]) for k in range(ncl)]
         scripts.append(dict(ev="script", id=sid, proto="udp", mode="socks5", assoc=assoc, clients=cls, replies=[small[0], small[1 % len(small)]],
                             late=[150, 0]))
     # the background exchanges are started first, so that their waiting overlaps with everything else
